@@ -734,11 +734,20 @@ impl<'a> SkiplistIterator<'a> {
 		}
 		// Check upper bound first - if entry is at or past upper, move backward
 		if let Some(upper) = self.upper.as_deref() {
-			while self.is_valid() {
-				let key = self.key_bytes();
-				if (self.list.cmp)(upper, key) == Ordering::Greater {
-					// key < upper, so this entry is valid
-					break;
+			// Not `while self.is_valid()`: that is false for the cached `upper_node`,
+			// which is exactly the kind of node this loop has to step back over.
+			while self.nd != self.list.head
+				&& self.nd != self.list.tail
+				&& !self.nd.is_null()
+				&& self.nd != self.lower_node
+			{
+				// The cached node is known to be at or past `upper`
+				if self.nd != self.upper_node {
+					let key = self.key_bytes();
+					if (self.list.cmp)(upper, key) == Ordering::Greater {
+						// key < upper, so this entry is valid
+						break;
+					}
 				}
 				// key >= upper, skip this entry
 				self.nd = self.list.get_prev(self.nd, 0);
